@@ -19,7 +19,7 @@ from typing import Dict, FrozenSet, List, Optional, Tuple
 from .dataflow import State, assigned_simple_names, forward
 from .report import Ctx
 from .srcmodel import AnalysisError, call_leaf, call_name, calls_in, contains, dotted, func_params, qualname, src, walk_local
-from .util import root_name
+from .util import guard_chain, root_name
 
 BOTTOM = -1  # empty namespace / None
 DEFAULTS, ENV, GIVEN, NEW = 0, 1, 2, 3
@@ -348,6 +348,27 @@ def run(ctx: Ctx) -> int:
     floops = [n for n in walk_local(gdf) if isinstance(n, ast.For) and dotted(n.iter) is not None and dotted(n.iter).endswith("default_config_files")]
     ctx.oblige("C04.b", len(floops) >= 2, gdf, "patterns are iterated in listed order (direct iteration of default_config_files)" if len(floops) >= 2 else "pattern loops over default_config_files changed shape", fn=gdf, construct="pattern loops in listed order")
 
+    # parse_object: the given object is applied against the configuration that already holds every earlier
+    # source (defaults, environment, cfg_base): its `prev_cfg` is what 'init_args without class_path', dotted
+    # sub-options and appends are resolved against
+    po = ctx.func("_core:ArgumentParser.parse_object")
+    gpo = ctx.cfg(po)
+    ap_obj = [c for c in calls_in(po) if call_leaf(c) == "_apply_actions" and any(k.arg == "prev_cfg" for k in c.keywords)]
+    mb = [c for c in calls_in(po) if call_leaf(c) == "merge_config" and c.args and isinstance(c.args[0], ast.Name) and c.args[0].id == "cfg_base"]
+    ctx.need(len(ap_obj) == 1 and len(mb) == 1, "parse_object: _apply_actions(<obj>, prev_cfg=...) and merge_config(cfg_base, ...)")
+    pk = next(k.value for k in ap_obj[0].keywords if k.arg == "prev_cfg")
+    mb_stmt = [s for s in walk_local(po) if isinstance(s, ast.Assign) and contains(s, mb[0])]
+    same_acc = bool(mb_stmt) and isinstance(pk, ast.Name) and isinstance(mb_stmt[0].targets[0], ast.Name) and mb_stmt[0].targets[0].id == pk.id
+    ok = same_acc and not gpo.can_reach(gpo.cn(ap_obj), gpo.cn(mb))
+    ctx.oblige(
+        "C04.b",
+        ok,
+        ap_obj[0],
+        "the object is applied against the accumulator after cfg_base was merged into it" if ok else "the object is applied (prev_cfg) before / without cfg_base being merged: values that depend on the earlier source (init_args for the class chosen in cfg_base, appends) are resolved against defaults only",
+        fn=po,
+        construct="parse_object prev_cfg holds cfg_base",
+    )
+
     # ---- C04.e the source-selection flags keep their meaning across calls ---------------------------
     # `env` (environment variables are a source) and `defaults` (defaults are a source) travel through the
     # parse call chain as same-named parameters; a call that binds one flag to the other's parameter silently
@@ -394,6 +415,54 @@ def run(ctx: Ctx) -> int:
                     fn=fn,
                 )
     ctx.floor("C04.e-flag-calls", n_flag_calls, 5)
+
+    # ---- C04.f who may combine two sources -------------------------------------------------------------
+    # a whole-namespace `X.update(Y)` (no key) is how two sources are folded; only merge_config may do it,
+    # because it first applies what has to happen between sources ('key+' appends against the earlier value,
+    # discarding init_args on a class_path change)
+    n_upd = 0
+    for fq, fn in repo.all_funcs():
+        for c in calls_in(fn):
+            if call_leaf(c) != "update" or not isinstance(c.func, ast.Attribute) or len(c.args) != 1 or c.keywords:
+                continue
+            recv = c.func.value
+            targets, how = cg.resolve(fq, c)
+            is_ns = any(t.endswith(":Namespace.update") for t in targets) or (isinstance(recv, ast.Call) and call_leaf(recv) == "clone")
+            if not is_ns:
+                continue
+            n_upd += 1
+            ok = fq == "_core:ArgumentParser.merge_config"
+            ctx.oblige(
+                "C04.f",
+                ok,
+                c,
+                "the one whole-namespace update: inside merge_config, after appends and class_path changes were resolved" if ok else f"two sources are folded by a bare {src(c, 60)} outside merge_config: 'key+' appends and class_path changes in the later source are not resolved against the earlier one",
+                fn=fn,
+            )
+    ctx.floor("C04.f-namespace-updates", n_upd, 1)
+
+    # ---- C04.g an append ('key+') is tried against list-typed Union members first, and only those ----------
+    from .shared_rules import origin_table
+
+    ssu = ctx.func("_typehints:sort_subtypes_for_union")
+    ap_param = [a.arg for a in ssu.args.args][-1]
+    resorts = [c for c in calls_in(ssu) if isinstance(c.func, ast.Name) and c.func.id == "sorted" and any(isinstance(t, ast.Name) and t.id == ap_param and pol for t, pol in guard_chain(c, stop=ssu))]
+    ctx.need(len(resorts) == 1, "sort_subtypes_for_union: one re-sort under `if append`")
+    keyf = next((k.value for k in resorts[0].keywords if k.arg == "key"), None)
+    tabs = [n for n in ast.walk(keyf) if isinstance(n, ast.Compare) and len(n.ops) == 1 and isinstance(n.ops[0], (ast.NotIn, ast.In)) and isinstance(n.comparators[0], ast.Name)] if keyf is not None else []
+    ctx.need(len(tabs) == 1, "sort_subtypes_for_union: append key tests membership in one origin table")
+    tname = tabs[0].comparators[0].id
+    tab = origin_table(repo, tname)
+    maps = origin_table(repo, "mapping_origin_types")
+    front = isinstance(tabs[0].ops[0], ast.NotIn)  # False sorts first: members IN the table come first
+    ok = front and {"List", "list"} <= tab and not (tab & maps) and not (tab & {"Tuple", "tuple", "Set", "set"})
+    ctx.oblige(
+        "C04.g",
+        ok,
+        resorts[0],
+        f"for an append the Union members are re-sorted so that list-like members ({tname}) are tried first" if ok else f"for an append the Union members tried first are those in `{tname}` = {sorted(tab)}: a non-list member (e.g. Dict) accepts the appended item as a whole value and REPLACES what earlier sources built instead of appending to it",
+        fn=ssu,
+    )
 
     ctx.trusted_base += ["Namespace.update(x) lets x win (checked separately under C11 clash rules only structurally)", "argparse applies option actions left to right"]
     ctx.assumptions += ["producer table (callee -> provenance rank) and the per-function GIVEN table in rules_C04.py; an unrankable merge site is an ANALYSIS-ERROR, not a pass"]
